@@ -1,7 +1,7 @@
 #!/usr/bin/env python3
 """Generates MANIFEST.json from the table below (single source of truth for the interface)."""
 import json
-HOOK_COMMITS = []  # filled in when hook commits exist in /repo
+HOOK_COMMITS = ["448eaea", "f23b98f"]  # filled in when hook commits exist in /repo
 checks = {}
 def add(pid, level, text, note, technique, design_ref, thorough=True):
     checks[pid] = {
@@ -24,6 +24,20 @@ add("C14", "exploration",
     "Generated seeds (all Keccak block-edge lengths, long), seed pairs with a single difference, and unseeded invocations; every entry point (typed, RLN byte API, FFI) is compared with an independent derivation ChaCha20(Keccak_ref(seed)) -> documented field sampling -> reference Poseidon; relations, canonicity, distinctness and 16-thread reproducibility are asserted; documented seeds give the documented identities.",
     "Trusted: rand_chacha's ChaCha20 stream; the BigUint mirror of arkworks' field sampling; reference Poseidon/Keccak (self-tested).",
     "property-based testing with an independent reference derivation + metamorphic seed pairs (proptest)", "DESIGN.md#c14")
+
+TREE_NOTE = "Trusted: the ideal model (sparse array + pairwise fold, no incremental logic) and the tree's own pair hash (judged by C09). Known-finding classes (KNOWN_FINDINGS.txt) are skipped per backend before the code is touched and counted in coverage.excluded_known."
+add("C06", "exploration",
+    "Model-based stateful testing: generated histories over {set, delete, append, set_range, reset} with boundary positions (mark, mark±1, cap-1, cap, cap+1, usize::MAX) at depth 1..6 (every leaf, every subtree root, root and leaves_set observed after every step) and 10/20 (probes), on FullMerkleTree, OptimalMerkleTree, PmTree and the RLN byte API, each against its own ideal array-of-leaves model; rejected operations must change nothing. Sampling of histories, not exhaustive.",
+    TREE_NOTE, "stateful model-based property testing (proptest histories + ideal-tree oracle)", "DESIGN.md#c06")
+add("C07", "exploration",
+    "For generated reachable states (histories incl. deletes, range writes, batches) and all/sampled positions: proof shape, LSB-first bits and siblings equal the ideal tree's, root recomputation and verify accept the stored leaf and not a different one, and every single sibling alteration / direction-bit flip (where the children differ) is not accepted, per backend; RLN::get_proof bytes decoded with an independent codec.",
+    TREE_NOTE + " Collision resistance of the pair hash assumed for the negative half. PmTree proofs are assembled through the cfg(zerokit_verif) hook PmTreeProof::verif_from_parts.", "stateful model-based property testing + mutation of proofs (metamorphic)", "DESIGN.md#c07")
+add("C08", "exploration",
+    "Generated reachable state + 1..3 batch requests from forced shape classes (write-only, remove-only, removals before/inside/after/interleaved, unsorted, duplicates, empty, start at mark/cap/usize::MAX, removal>=cap, batch initialisation incl. over-capacity) through trait override_range on three backends and RLN::atomic_operation/set_leaves_from/init_tree_with_leaves; outcome must be (Ok and every leaf/subtree root/root/leaves_set equal to the model) or (Err and everything unchanged); panics are violations.",
+    TREE_NOTE, "stateful model-based property testing with shape-class generators", "DESIGN.md#c08")
+add("C15", "exploration",
+    "Generated histories over every mutating operation plus compute_root and flush+drop+reopen of a non-temporary persistent tree; after every step get_empty_leaves_indices() (trait and RLN bytes) must equal the model's ascending list of never-written or removed positions below the mark, per backend.",
+    TREE_NOTE, "stateful model-based property testing (flag model)", "DESIGN.md#c15")
 
 ALL = [f"C{i:02d}" for i in range(1, 21)]
 PENDING_REASON = "check not built yet in this revision of /verif (planned, see DESIGN.md section 2); not claimed until its machinery exists"
